@@ -409,7 +409,7 @@ def trainer_options(rng, name, force_finite=False):
 _NCL = [0]
 
 
-def case_model(rng, tier, i, degen=False, name=None, force_finite=False):
+def case_model(rng, tier, i, degen=False, name=None, force_finite=False, force_nc=False):
     name = name or mm.MODELS[int(rng.integers(0, len(mm.MODELS)))]
     K = int(rng.integers(1, 5)) if name != 'cacgmm' else int(rng.integers(2, 5))
     D = int(rng.integers(2, 6))
@@ -437,11 +437,11 @@ def case_model(rng, tier, i, degen=False, name=None, force_finite=False):
     iters = int(rng.integers(1, 5))
     topts = trainer_options(rng, name, force_finite)
     _NCL[0] += 1
-    use_nc = (not degen) and _NCL[0] % 4 == 0 and 'source_activity_mask' not in opts
+    use_nc = (not degen) and (_NCL[0] % 4 == 0 or force_nc) and 'source_activity_mask' not in opts
     if use_nc:
         # random start drawn by the trainer itself (num_classes=K); every second one stopped after the first M-step
         style = 'num_classes'
-        if _NCL[0] % 8 == 0:
+        if _NCL[0] % 8 == 0 or force_nc:
             iters = 1
     rp = {'fn': 'model', 'model': name, 'data': {k: v for k, v in data.items() if k != 'labels'}, 'init': init, 'num_classes': bool(use_nc),
           'opts': {k: v for k, v in opts.items() if k != 'inline_permutation_aligner'},
@@ -859,6 +859,8 @@ def cases(rng, tier):
         out.append(case_model(rng, tier, i))
     for i in range(35 if q else 350):
         out.append(case_model(rng, tier, i, degen=True))
+    for i in range(7 if q else 28):
+        out.append(case_model(rng, tier, i, name=mm.MODELS[i % 7], force_nc=True))
     for i in range(4 if q else 40):
         out.append(case_model(rng, tier, i, degen=bool(i % 2), name='cbmm', force_finite=True))
     for i in range(20 if q else 200):
